@@ -45,7 +45,7 @@ def envOf (j : Json) : Env :=
 
 def kindOf (j : Json) (init : Bool) : StoreKind :=
   match jS (jF j "k") with
-  | "generic" => .genericInstance (if init then [] else (jL (jF j "g")).map fun p => (jN (jAt p 0), annOf (jAt p 1)))
+  | "generic" => .genericInstance ((jL (jF j "p")).map jN) (if init then [] else (jL (jF j "g")).map fun p => (jN (jAt p 0), annOf (jAt p 1)))
   | "reset" => .resetEachAccess
   | _ => .perCall
 
@@ -60,7 +60,7 @@ def outS : Out → String
 def verdictS : Spec.Verdict → String
   | .accept => "accept" | .tvm => "tvm" | .tvmInUnion => "tvmInUnion" | .reject => "reject" | .unclaimed => "unclaimed"
 
-/-- case: {"env": …, "insts": [{"k": "generic", "g": [[tv, ann]…]} | {"k": "reset"} | {"k": "direct"} | {"k": "plain"}],
+/-- case: {"env": …, "insts": [{"k": "generic", "p": [tv…], "g": [[tv, ann]…]} | {"k": "reset"} | {"k": "direct"} | {"k": "plain"}],
            "steps": [{"i": inst, "f": function id, "init": bool, "scan": bool, "checks": [[ann, val]…]}]} -/
 def handle (c : Json) : Json :=
   let env := envOf (jF c "env")
